@@ -32,7 +32,11 @@ func HarnessC17Dag() {
 	for i := 0; i < n; i++ {
 		adj[i] = make([]bool, n)
 		lp := &v1beta1.LockPackage{Name: "p" + string(rune('a'+i)), Source: zzSources[i], Version: "v1.0.0"}
-		nd := zz.Choose("pkg"+string(rune('0'+i))+".deps", 3)
+		maxDeps := 2
+		if n > 3 && i >= 2 {
+			maxDeps = 1 // four packages: the last two have at most one dependency
+		}
+		nd := zz.Choose("pkg"+string(rune('0'+i))+".deps", maxDeps+1)
 		for k := 0; k < nd; k++ {
 			t := zz.Choose("pkg"+string(rune('0'+i))+".dep"+string(rune('0'+k)), len(targets))
 			lp.Dependencies = append(lp.Dependencies, v1beta1.Dependency{Package: targets[t], Constraints: ">=v0.0.0"})
